@@ -152,7 +152,7 @@ def tame_rule(p):
                 if x is None:
                     continue
                 if isinstance(x, float):
-                    return True
+                    continue      # evaluation is left to right: an earlier (string * integer) is built before a float is seen
                 tot *= max(1, abs(x))
             return tot <= (1 << 17)
         return ok
